@@ -10,7 +10,7 @@ import (
 	"github.com/btcsuite/btcd/chaincfg/v2"
 	"github.com/btcsuite/btcd/chainhash/v2"
 	"github.com/btcsuite/btcd/database"
-	_ "github.com/btcsuite/btcd/database/ffldb"
+	"github.com/btcsuite/btcd/database/ffldb"
 	"github.com/btcsuite/btcd/txscript/v2"
 
 	"verif/internal/scratch"
@@ -32,6 +32,12 @@ type EnvOpt struct {
 	// Dir reuses an existing database directory (re-open) instead of
 	// creating a fresh one.
 	Dir string
+	// WrapDB, when set, wraps the database handed to the chain (fault and
+	// crash injection). Env.RawDB stays the real ffldb handle.
+	WrapDB func(database.DB) database.DB
+	// BlockFileSize, when non-zero, is the maximum block file size of the
+	// database (small values force file roll-over and make pruning reachable).
+	BlockFileSize uint32
 }
 
 // Env is a real BlockChain on a scratch ffldb plus the recorded notifications.
@@ -39,7 +45,8 @@ type Env struct {
 	Params *chaincfg.Params
 	Opt    EnvOpt
 	Dir    string
-	DB     database.DB
+	DB     database.DB // what the chain uses (possibly wrapped)
+	RawDB  database.DB // the ffldb handle
 	Chain  *blockchain.BlockChain
 	Clock  *FakeClock
 	Notifs []Notif
@@ -58,6 +65,13 @@ func NewEnv(p *chaincfg.Params, opt EnvOpt) (*Env, error) {
 	}
 	if err != nil {
 		return nil, fmt.Errorf("open db: %w", err)
+	}
+	e.RawDB = e.DB
+	if opt.BlockFileSize != 0 {
+		ffldb.VerifSetMaxBlockFileSize(e.RawDB, opt.BlockFileSize)
+	}
+	if opt.WrapDB != nil {
+		e.DB = opt.WrapDB(e.RawDB)
 	}
 	if err := e.newChain(); err != nil {
 		e.DB.Close()
@@ -93,31 +107,37 @@ func (e *Env) Reopen(flush bool) error {
 			return fmt.Errorf("flush on shutdown: %w", err)
 		}
 	}
-	if err := e.DB.Close(); err != nil {
+	if err := e.RawDB.Close(); err != nil {
 		return fmt.Errorf("db close: %w", err)
 	}
 	db, err := database.Open("ffldb", e.Dir, e.Params.Net)
 	if err != nil {
 		return fmt.Errorf("db reopen: %w", err)
 	}
-	e.DB = db
+	e.DB, e.RawDB = db, db
+	if e.Opt.BlockFileSize != 0 {
+		ffldb.VerifSetMaxBlockFileSize(db, e.Opt.BlockFileSize)
+	}
+	if e.Opt.WrapDB != nil {
+		e.DB = e.Opt.WrapDB(db)
+	}
 	e.Notifs = nil
 	return e.newChain()
 }
 
 // Close closes the database and removes the directory.
 func (e *Env) Close() {
-	if e.DB != nil {
-		e.DB.Close()
+	if e.RawDB != nil {
+		e.RawDB.Close()
 	}
 	os.RemoveAll(e.Dir)
 }
 
 // CloseKeep closes the database but keeps the directory.
 func (e *Env) CloseKeep() {
-	if e.DB != nil {
-		e.DB.Close()
-		e.DB = nil
+	if e.RawDB != nil {
+		e.RawDB.Close()
+		e.RawDB, e.DB = nil, nil
 	}
 }
 
